@@ -425,12 +425,46 @@ type c14Act struct {
 	Prio   bool   `json:"prio,omitempty"`
 	RunAdd bool   `json:"runadd,omitempty"`
 	K      int    `json:"n,omitempty"`
+	// "reg": how the option SET {Prio, RunAdd} is handed to Register: 0 = Prioritize() before UnsafeRunInAddEvent()
+	// (the only order the repository itself uses), 1 = reversed, 2 = canonical order with the first option repeated
+	// at the end, 3 = reversed order with its first option repeated at the end.  The model only sees the set.
+	Ord    int    `json:"option_order,omitempty"`
 	Ticks  int    `json:"ticks,omitempty"` // "run": number of Tick steps el.Run was observed to perform (filled in after the run)
 	// ctxview (K = view bound, 0 = nil) / ctxtimeout / ctxcancel (K = number of the context): filled in after
 	// the run: the context's number and the registration numbers (= unregister closures) it owns
 	C    int   `json:"ctx,omitempty"`
 	Toks []int `json:"registrations,omitempty"`
 	Skip bool  `json:"skipped,omitempty"` // the operation could not be performed (no such context / closure)
+}
+
+// c14Options turns the option set into the list of options passed to Register, in the order chosen by ord
+func c14Options(prio, runadd bool, ord int) ([]HandlerOption, []string) {
+	type o struct {
+		f    func() HandlerOption
+		name string
+	}
+	var seq []o
+	if prio {
+		seq = append(seq, o{Prioritize, "Prioritize()"})
+	}
+	if runadd {
+		seq = append(seq, o{UnsafeRunInAddEvent, "UnsafeRunInAddEvent()"})
+	}
+	if ord%2 == 1 {
+		for i, j := 0, len(seq)-1; i < j; i, j = i+1, j-1 {
+			seq[i], seq[j] = seq[j], seq[i]
+		}
+	}
+	if ord >= 2 && len(seq) > 0 {
+		seq = append(seq, seq[0])
+	}
+	var opts []HandlerOption
+	var names []string
+	for _, x := range seq {
+		opts = append(opts, x.f())
+		names = append(names, x.name)
+	}
+	return opts, names
 }
 
 func c14Event(t int, id uint64) string { return fmt.Sprintf("(%s, %s)", gN(uint64(t)), gN(id)) }
@@ -504,6 +538,7 @@ type c14RegInfo struct {
 	unregs       int
 	silent       bool // registered by context.go itself: its invocations are not observable
 	ctx          int
+	optNames     []string // the options as passed to Register, in order
 }
 
 type c14Ctx struct {
@@ -675,7 +710,30 @@ func (r *c14Run) checkDispatch(from, depth int, inadd bool, live []int, what str
 			}
 			missing = missing || !found
 		}
-		if r.doubleUnreg && missing {
+		// a registration that is in one list but not the other and was given its options in another way than
+		// (Prioritize(), UnsafeRunInAddEvent()): its options were not treated as a set
+		optReg := -1
+		inList := func(l []int, x int) bool {
+			for _, y := range l {
+				if x == y {
+					return true
+				}
+			}
+			return false
+		}
+		for _, x := range append(append([]int{}, a...), b...) {
+			if inList(a, x) != inList(b, x) && len(r.regs[x].optNames) > 0 &&
+				fmt.Sprint(r.regs[x].optNames) != "[Prioritize() UnsafeRunInAddEvent()]" && len(r.regs[x].optNames) != 1 {
+				optReg = x
+			}
+		}
+		if optReg >= 0 {
+			mode := "in the event loop"
+			if inadd {
+				mode = "inside AddEvent"
+			}
+			r.fail("loop.register:options-not-a-set", fmt.Sprintf("%s: handlers invoked %s (registration numbers) %v, registered for this mode at that moment %v; registration %d was made with options %v, i.e. the option set {priority=%v, run-in-AddEvent=%v}, and is not treated accordingly", what, mode, got, live, optReg, r.regs[optReg].optNames, r.regs[optReg].prio, r.regs[optReg].runadd))
+		} else if r.doubleUnreg && missing {
 			// an unregister closure was called more than once earlier: it must only ever remove its own handler
 			r.fail("loop.unregister:stale-closure-removed-another-handler", fmt.Sprintf("%s: handlers invoked (registration numbers) %v, but registered and never unregistered by their own closure: %v -- a second call of an older unregister closure removed a handler that reused its slot", what, got, live))
 		} else {
@@ -807,14 +865,8 @@ func (r *c14Run) do(a c14Act) {
 		c14Delay(r.el, a.T, nil)
 	case "reg":
 		reg := len(r.regs)
-		r.regs = append(r.regs, c14RegInfo{t: a.T, h: a.H, prio: a.Prio, runadd: a.RunAdd, live: true})
-		var opts []HandlerOption
-		if a.Prio {
-			opts = append(opts, Prioritize())
-		}
-		if a.RunAdd {
-			opts = append(opts, UnsafeRunInAddEvent())
-		}
+		opts, names := c14Options(a.Prio, a.RunAdd, a.Ord)
+		r.regs = append(r.regs, c14RegInfo{t: a.T, h: a.H, prio: a.Prio, runadd: a.RunAdd, live: true, optNames: names})
 		r.unregs = append(r.unregs, c14Reg(r.el, a.T, r.handler(reg), opts...))
 	case "unreg":
 		if a.K < len(r.unregs) && r.unregs[a.K] != nil {
@@ -1139,6 +1191,14 @@ func c14RunLoopN(v *verifOut, s *verifStream, stream string, capacity int, tbl [
 	v.Case(s, fmt.Sprintf("(%s, %s, %s, %s, %s)", gNat(capacity), c14TblGallina(tbl), c14TblGallina(r.ctbl), c14ProgGallina(prog), gList(obs)), meta)
 }
 
+// the option order is drawn from a generator of its own so that the other random choices stay as they were
+var c14OrdState uint32 = 12345
+
+func c14OrdOf(v *verifOut) int {
+	c14OrdState = c14OrdState*1664525 + 1013904223 + uint32(v.seed)
+	return int(c14OrdState>>16) % 4
+}
+
 func c14RandAct(v *verifOut, nextID *uint64, nTokens int, allowTick bool) c14Act {
 	r := v.rng.Intn(100)
 	t := v.rng.Intn(c14Types)
@@ -1150,7 +1210,7 @@ func c14RandAct(v *verifOut, nextID *uint64, nTokens int, allowTick bool) c14Act
 		*nextID++
 		return c14Act{Kind: "delay", T: t, ET: v.rng.Intn(c14Types), ID: *nextID}
 	case r < 60:
-		return c14Act{Kind: "reg", T: t, H: 2 + v.rng.Intn(4), Prio: v.rng.Intn(2) == 0, RunAdd: v.rng.Intn(3) == 0}
+		return c14Act{Kind: "reg", T: t, H: 2 + v.rng.Intn(4), Prio: v.rng.Intn(2) == 0, RunAdd: v.rng.Intn(3) == 0, Ord: c14OrdOf(v)}
 	case r < 70:
 		// never the recorders (tokens 0..2*types-1)
 		return c14Act{Kind: "unreg", K: 2*c14Types + v.rng.Intn(nTokens+1)}
@@ -1292,7 +1352,7 @@ func c14HardenedLoopStreams(v *verifOut, s *verifStream) {
 					tbl := [][]c14Act{{}, {}, {b1, b2}, sec, {},
 						{{Kind: "delay", T: 0, ET: 1, ID: 55}, {Kind: "delay", T: 0, ET: 1, ID: 56}}}
 					body := []c14Act{
-						{Kind: "reg", T: 0, H: 2, Prio: f[0], RunAdd: f[1]}, {Kind: "reg", T: 0, H: 3}, {Kind: "reg", T: 1, H: 4, RunAdd: true},
+						{Kind: "reg", T: 0, H: 2, Prio: f[0], RunAdd: f[1], Ord: (i + j + si) % 4}, {Kind: "reg", T: 0, H: 3}, {Kind: "reg", T: 1, H: 4, RunAdd: true, Ord: (i + 2*j) % 4},
 						{Kind: "delay", T: 0, ET: 1, ID: 1}, {Kind: "delay", T: 0, ET: 1, ID: 2},
 						{Kind: "add", T: 0, ID: 3}, {Kind: "tick"}, {Kind: "tick"},
 						{Kind: "add", T: 0, ID: 4}, {Kind: "tick"}, {Kind: "tick"}, {Kind: "tick"},
@@ -1364,7 +1424,7 @@ func c14HardenedLoopStreams(v *verifOut, s *verifStream) {
 						body = append(body, fill[x])
 						tokA++
 					}
-					body = append(body, c14Act{Kind: "reg", T: 0, H: 2, Prio: A[0], RunAdd: A[1]})
+					body = append(body, c14Act{Kind: "reg", T: 0, H: 2, Prio: A[0], RunAdd: A[1], Ord: (fa + pos) % 4})
 					for x := pos; x < 2; x++ {
 						body = append(body, fill[x])
 					}
@@ -1372,7 +1432,7 @@ func c14HardenedLoopStreams(v *verifOut, s *verifStream) {
 						body = append(body, c14Act{Kind: "add", T: 0, ID: 1}, c14Act{Kind: "tick"})
 					}
 					body = append(body, c14Act{Kind: "unreg", K: tokA},
-						c14Act{Kind: "reg", T: 0, H: 5, Prio: B[0], RunAdd: B[1]}, // reuses A's slot
+						c14Act{Kind: "reg", T: 0, H: 5, Prio: B[0], RunAdd: B[1], Ord: (fb + variant + 1) % 4}, // reuses A's slot
 						c14Act{Kind: "reg", T: 0, H: 4, Prio: true},              // genuinely prioritised, registered later
 						c14Act{Kind: "add", T: 0, ID: 2}, c14Act{Kind: "add", T: 1, ID: 3}, c14Act{Kind: "tick"}, c14Act{Kind: "tick"},
 						c14Act{Kind: "unreg", K: 2*c14Types + 3}, // the reusing handler
@@ -1421,6 +1481,60 @@ func c14HardenedLoopStreams(v *verifOut, s *verifStream) {
 					}
 				}
 			}
+		}
+	}
+
+	// (i) the options of a handler are a SET: every subset of {Prioritize, UnsafeRunInAddEvent} handed to Register in
+	//     every order and with a repeated option, for one or two such handlers at every position among ordinary
+	//     and prioritised handlers of both modes on the same event type; observed when AddEvent returns (the
+	//     run-in-AddEvent handlers must have run, prioritised first) and after the loop handled the event.
+	type optv struct {
+		prio, runadd bool
+		ord          int
+	}
+	var variants []optv
+	for _, f := range flags {
+		n := 0
+		if f[0] {
+			n++
+		}
+		if f[1] {
+			n++
+		}
+		for ord := 0; ord < 4; ord++ {
+			if n == 0 && ord > 0 {
+				continue
+			}
+			if n == 1 && ord%2 == 1 {
+				continue // reversing one option changes nothing
+			}
+			variants = append(variants, optv{f[0], f[1], ord})
+		}
+	}
+	others := []c14Act{{Kind: "reg", T: 0, H: 3, RunAdd: true}, {Kind: "reg", T: 0, H: 3}, {Kind: "reg", T: 0, H: 4, Prio: true}, {Kind: "reg", T: 0, H: 4, Prio: true, RunAdd: true}}
+	otbl := [][]c14Act{{}, {}, {}, {}, {}, {}}
+	optProgram := func(subjects []optv, pos int) {
+		var body []c14Act
+		for x := 0; x < pos; x++ {
+			body = append(body, others[x])
+		}
+		for _, sv := range subjects {
+			body = append(body, c14Act{Kind: "reg", T: 0, H: 2, Prio: sv.prio, RunAdd: sv.runadd, Ord: sv.ord})
+		}
+		for x := pos; x < len(others); x++ {
+			body = append(body, others[x])
+		}
+		body = append(body, c14Act{Kind: "add", T: 0, ID: 1}, c14Act{Kind: "tick"}, c14Act{Kind: "add", T: 0, ID: 2}, c14Act{Kind: "add", T: 1, ID: 3}, c14Act{Kind: "run"})
+		c14RunLoop(v, s, "options", 8, otbl, body)
+	}
+	for _, a := range variants {
+		for pos := 0; pos <= len(others); pos++ {
+			optProgram([]optv{a}, pos)
+		}
+	}
+	for i, a := range variants {
+		for j, b := range variants {
+			optProgram([]optv{a, b}, (i+j)%(len(others)+1))
 		}
 	}
 
@@ -1531,7 +1645,7 @@ func c14ContextStreams(v *verifOut, s *verifStream) {
 			case x < 68:
 				body = append(body, c14Act{Kind: "ctxcancel", K: v.rng.Intn(ctxs + 1)})
 			case x < 78:
-				body = append(body, c14Act{Kind: "reg", T: 3 + v.rng.Intn(2), H: 2 + v.rng.Intn(4), Prio: v.rng.Intn(2) == 0, RunAdd: v.rng.Intn(3) == 0})
+				body = append(body, c14Act{Kind: "reg", T: 3 + v.rng.Intn(2), H: 2 + v.rng.Intn(4), Prio: v.rng.Intn(2) == 0, RunAdd: v.rng.Intn(3) == 0, Ord: c14OrdOf(v)})
 				regs++
 			case x < 88:
 				body = append(body, c14Act{Kind: "unreg", K: 2*c14MaxTypes + v.rng.Intn(regs+1)})
